@@ -132,6 +132,10 @@ class NodeTap:
         return emit
 
     # ------------------------------------------------------------------
+    def position_classes_known(self) -> bool:
+        """False after a refactor that renamed the *= / @= node classes: position moves can then not be told apart."""
+        return all(f"{c}.emit" in self.wrapped for c in POSITION_CLASSES)
+
     def start(self) -> None:
         self.events = []
         self.phase = "other"
@@ -142,7 +146,7 @@ class NodeTap:
         return self.events
 
 
-def analyse(events: list[tuple]) -> dict:
+def analyse(events: list[tuple], position_classes_known: bool = True) -> dict:
     """Offline checker over one accepted assembly's event log (C02 R1-R3, C03 producer side).
 
     Returns {"deviations": [(rule, text)], "judged": n, "produced": [bytes per emitting node in order],
@@ -176,7 +180,7 @@ def analyse(events: list[tuple]) -> dict:
             pred = p[7] - p[5]
         else:
             pred = (p[6] - p[4]) if p[6] is not None and p[4] is not None else None
-        if pred is not None and pred != nbytes:
+        if pred is not None and pred != nbytes and not (nbytes == 0 and not position_classes_known):
             devs.append(("R2", f"{cls} at {e[4]:#x}: sized {pred} byte(s) while labels were resolved, emitted {nbytes}"))
         if p[8] is not None and p[8] != e[4]:
             devs.append(("R3", f"{cls}: label value {p[8]:#x} but the next byte is emitted at {e[4]:#x}"))
